@@ -4,9 +4,13 @@ import re
 
 PROP = "C19"
 ENGINE = "meta"
-LEAN_TARGETS = ["H5V.Props.C19"]
-AUDIT_IMPORTS = ["H5V.Props.C19"]
-THEOREMS = ["H5V.Props.C19." + t for t in ["C19_extract", "C19_extract_no_panic", "findLoop_spec", "outerLoop_spec"]]
+LEAN_TARGETS = ["H5V.Props.C19", "H5V.Props.C19Fire"]
+AUDIT_IMPORTS = ["H5V.Props.C19", "H5V.Props.C19Fire"]
+THEOREMS = ["H5V.Props.C19." + t for t in ["C19_extract", "C19_extract_no_panic", "findLoop_spec", "outerLoop_spec",
+    # the firing rule in the tree-builder model (Props/C19Fire.lean)
+    "C19_in_head_meta", "C19_in_head_meta_total", "C19_charset_wins", "C19_rule_only_meta", "C19_foreign_only_meta",
+    "C19_only_meta_fires", "C19_at_most_once", "C19_meta_routing", "C19_meta_foreign", "C19_meta_ignored",
+    "C19_fires_in_head", "C19_silent_in_head"]]
 TRUSTED = [
     "Lean 4 kernel; axioms ⊆ {propext, Classical.choice, Quot.sound} (audited per run)",
     "H5V.Spec.MetaExtract: my transcription of the WHATWG 'algorithm for extracting a character encoding from a meta "
